@@ -25,7 +25,8 @@ CHECKS = {
     text="Codec_Lh1.tla carries the LZHUF reference algorithm (StartHuff, update with node exchange, reconst at MAX_FREQ, the fixed "
          "position code); lhasa's -lh1- decoder, which maintains frequency groups instead, is run on streams from an independent LZHUF "
          "encoder: skewed, tie-heavy and uniform symbol distributions, all copy lengths 3..60, distances 0/63/64/4095, streams of more "
-         "than 32768 symbols so that the tree is rebuilt repeatedly. TLC replays every stream through the reference and requires "
+         "than 32768 symbols so that the tree is rebuilt repeatedly, and a ramp distribution that drives the number of distinct node "
+         "frequencies (lhasa's frequency groups) beyond 314 of the 627 possible. TLC replays every stream through the reference and requires "
          "every decoded command (chunk) of the C decoder to equal the reference's and the LZ77 expansion of the commands - any "
          "divergence of the adaptive tree shows as a wrong symbol. Grounded on the corpus' -lh1- members.",
     design_ref="DESIGN.md section 5, C02",
@@ -82,7 +83,10 @@ CHECKS = {
          "2^32-1} and several read schedules (one large read, 1-byte reads, primes with zero-length reads, monitor attached), "
          "under AddressSanitizer and -fsanitize=bounds, with output buffers of exactly the requested size. A crash, sanitizer "
          "report or signal is a violation; a sample is validated against DecoderApi.tla (n <= k, buffer bounds, faithful "
-         "length/CRC, inner decoder never called after it returned 0).",
+         "length/CRC, inner decoder never called after it returned 0). Block headers of the -lh4-..-lk7- family are assembled by hand "
+         "with every value of every table field (single-code tables naming symbols beyond the alphabet, counts beyond it). Every "
+         "hostile stream of at most 200 bytes is also decoded by the TLA+ format definitions (Trace_Codec): on invalid input the C "
+         "decoder must produce exactly the definition's chunks (the definitions index nothing outside ring, tables and buffer).",
     design_ref="DESIGN.md section 5, C09",
     note="Not a proof: memory safety is observed by sanitizers on the executions run. Found and fixed: -pm2- copy_decode overrun "
          "(known_findings.json).",
@@ -129,7 +133,10 @@ CHECKS = {
          "thorough: all 255 values) x first/later member x mode in {l, lv, v, vv, t, x, xn, xq0, xq1, xq2, p}. Every byte the tool "
          "writes to stdout and stderr is logged and TLC evaluates the invariant (printable ASCII, LF, CR, TAB) on each; for the "
          "list modes stdout must in addition equal ListOutput.tla's rendering ('?' exactly where the hostile byte was). Random "
-         "hostile archives (names of any length, hostile wildcard arguments) go through the list commands as well.",
+         "hostile archives (names of any length, hostile wildcard arguments) go through the list commands as well. "
+         "Cli.tla defines all of stdout of t / x / e / p and the dry runs (progress bar, verdict lines, symlink lines, banners, EXTRACT / "
+         "VERIFY lines, option parsing incl. q0..q2, i, v, n, w=, wildcards): archives whose every path component and link target is "
+         "decorated with escape, bell, CSI, DEL, CR, LF, TAB and high bytes are run in every mode and stdout must equal Cli!Output.",
     design_ref="DESIGN.md section 5, C18",
     note="File data printed by `p` is kept ASCII so that all output can be checked. Found and fixed: raw method column "
          "(known_findings.json).",
@@ -199,7 +206,10 @@ CHECKS = {
          "2^32-1; unsupported method; multi-member mixes) three passes through the real reader are recorded - read (all bytes "
          "logged), check, extract - plus `lha t` and `lha x`; the trace spec computes length and CRC-16 of the produced bytes "
          "with its own Crc16 and requires every verdict (library return values, Tested/Melted lines, exit status) to be "
-         "exactly supported /\\ length = recorded /\\ CRC = recorded.",
+         "exactly supported /\\ length = recorded /\\ CRC = recorded. The complete stdout of `lha t | x | e` (progress bar "
+         "with its scale factor, Tested / CRC error / Melted / Failure lines) and the exit status are compared byte for byte with "
+         "Cli.tla (Trace_Cli) on generated archives and crafted progress-bar cases (57/58/59/116/117 blocks, declared length far beyond "
+         "the data, every corpus method).",
     design_ref="DESIGN.md section 5, C07",
     note="The recorded length/CRC are taken as the library returns them in the header (C05 covers parsing). MacBinary members "
          "are excluded (the envelope is stripped before the caller sees the bytes).",
